@@ -121,10 +121,7 @@ func VerifRingObservedFromCallbacksDuringRefresh() {
 	w := verifGSetup(nhosts, false)
 	w.drawHealth()
 	ndig := verif.Bound("digests_during", 1, len(verifGDigests))
-	d, err := core.NewSHA256DigestFromHex(verifGDigests[1+verif.Choice("digest", ndig)%len(verifGDigests)])
-	if err != nil {
-		d, err = core.NewSHA256DigestFromHex(verifGDigests[0])
-	}
+	d, err := core.NewSHA256DigestFromHex(verifGDigests[(1+verif.Choice("digest", ndig))%len(verifGDigests)])
 	verif.Assume(err == nil)
 	o := &verifGObserver{d: d}
 	filter := &verifGObservingFilter{inner: w.filter, o: o}
